@@ -205,7 +205,8 @@ theorem U_pos : (0 : Int) < U := by decide
 theorem init_wf (k : Kind) (p : Nat → List Cmd) (sp : List Cmd) : WF (init k p sp) :=
   ⟨by simp [init, Sorted], by simp [init], by simp [init]⟩
 
-theorem pushUser_wf {s : Sim} (h : WF s) {t : Int} (ht : s.now ≤ t) (p a : Nat) : WF (pushUser s t p a) := by
+theorem pushUser_wf {s : Sim} (h : WF s) {t : Int} (ht : s.now ≤ t) (p a : Nat) (c : Option Nat := none) :
+    WF (pushUser s t p a c) := by
   refine ⟨?_, ?_, ?_⟩
   · exact insert_sorted h.sorted (fun x hx => by have := h.idlt x hx; simp; omega)
   · intro e he
@@ -229,7 +230,8 @@ theorem pushStep_wf {s : Sim} (h : WF s) : WF (pushStep s) := by
     · have := U_pos; simp [pushStep]; omega
     · exact h.future e he
 
-theorem schedAbs_wf {s s' : Sim} (h : WF s) {t : Int} {p a : Nat} (hs : schedAbs s t p a = .ok s') : WF s' := by
+theorem schedAbs_wf {s s' : Sim} (h : WF s) {t : Int} {p a : Nat} {c : Option Nat} (hs : schedAbs s t p a c = .ok s') :
+    WF s' := by
   unfold schedAbs at hs
   split at hs
   · simp at hs
@@ -237,9 +239,10 @@ theorem schedAbs_wf {s s' : Sim} (h : WF s) {t : Int} {p a : Nat} (hs : schedAbs
     · simp at hs
     · simp only [Except.ok.injEq] at hs
       subst hs
-      exact pushUser_wf h (by omega) p a
+      exact pushUser_wf h (by omega) p a c
 
-theorem schedRel_wf {s s' : Sim} (h : WF s) {d : Int} {p a : Nat} (hs : schedRel s d p a = .ok s') : WF s' := by
+theorem schedRel_wf {s s' : Sim} (h : WF s) {d : Int} {p a : Nat} {c : Option Nat} (hs : schedRel s d p a c = .ok s') :
+    WF s' := by
   unfold schedRel at hs
   split at hs
   · simp at hs
@@ -247,7 +250,7 @@ theorem schedRel_wf {s s' : Sim} (h : WF s) {d : Int} {p a : Nat} (hs : schedRel
     · simp at hs
     · simp only [Except.ok.injEq] at hs
       subst hs
-      exact pushUser_wf h (by omega) p a
+      exact pushUser_wf h (by omega) p a c
 
 theorem mapFlags_wf {s : Sim} (h : WF s) (g : Ev → Ev)
     (hg : ∀ e, (g e).time = e.time ∧ (g e).prio = e.prio ∧ (g e).id = e.id) :
@@ -263,24 +266,49 @@ theorem mapFlags_wf {s : Sim} (h : WF s) (g : Ev → Ev)
 theorem cancelTag_wf {s : Sim} (h : WF s) (k : Nat) : WF (cancelTag s k) :=
   mapFlags_wf h _ (fun e => by split <;> simp)
 
-theorem dropTag_wf {s : Sim} (h : WF s) (k : Nat) : WF (dropTag s k) :=
-  mapFlags_wf h _ (fun e => by split <;> simp)
+theorem dropFn_wf {s : Sim} (h : WF s) (k : Nat) : WF (dropFn s k) :=
+  let w := mapFlags_wf h (fun e => if !e.isStep && e.fn == k then { e with dead := true } else e) (fun e => by split <;> simp)
+  ⟨w.sorted, w.idlt, w.future⟩
 
-theorem doCmd_wf {s : Sim} (h : WF s) (c : Cmd) : WF (doCmd s c) := by
+/-- `again`: nothing happens (the program no longer holds the callable, or the call is rejected), or one more event with
+    the held callable `k` is pushed -/
+theorem doCmd1_again_cases (s : Sim) (k : Nat) (d : Int) (p : Nat) :
+    doCmd1 s (.again k d p) = s ∨
+    ∃ a, s.fns.lookup k = some a ∧ 0 ≤ d ∧ doCmd1 s (.again k d p) = pushUser s (s.now + d) p a (some k) := by
+  cases hl : s.fns.lookup k with
+  | none => left; simp [doCmd1, again, hl]
+  | some a =>
+    by_cases h1 : d < 0
+    · left; simp [doCmd1, again, hl, schedRel, h1]
+    · by_cases h2 : okUnit s.kind (s.now + d) = true
+      · right; exact ⟨a, rfl, by omega, by simp [doCmd1, again, hl, schedRel, h1, h2]⟩
+      · left; simp [doCmd1, again, hl, schedRel, h1, h2]
+
+theorem doCmd1_wf {s : Sim} (h : WF s) (c : Cmd) : WF (doCmd1 s c) := by
   cases c with
   | schedAbs t p a =>
-    simp only [doCmd]
+    simp only [doCmd1]
     split
     · rename_i s' hs; exact schedAbs_wf h hs
     · exact h
   | schedRel d p a =>
-    simp only [doCmd]
+    simp only [doCmd1]
     split
     · rename_i s' hs; exact schedRel_wf h hs
     · exact h
+  | again k d p =>
+    rcases doCmd1_again_cases s k d p with he | ⟨a, _, hd, he⟩ <;> rw [he]
+    · exact h
+    · exact pushUser_wf h (by omega) p a _
   | cancel k => exact cancelTag_wf h k
-  | drop k => exact dropTag_wf h k
+  | drop k => exact dropFn_wf h k
   | halt => exact h
+  | raise x => exact ⟨h.sorted, h.idlt, h.future⟩
+
+theorem doCmd_wf {s : Sim} (h : WF s) (c : Cmd) : WF (doCmd s c) := by
+  unfold doCmd; split
+  · exact h
+  · exact doCmd1_wf h c
 
 theorem foldl_doCmd_wf {s : Sim} (h : WF s) (cs : List Cmd) : WF (cs.foldl doCmd s) := by
   induction cs generalizing s with
@@ -295,6 +323,30 @@ theorem popped_wf {s : Sim} (h : WF s) {e : Ev} {rest : List Ev} (hp : popLive s
     WF (popped s e rest) := by
   obtain ⟨_, hlt, hs⟩ := popLive_spec h.sorted hp
   refine ⟨hs, fun y hy => h.idlt y ((popLive_mem hp).2 y hy), fun y hy => Ev.time_le_of_lt (hlt y hy)⟩
+
+/-! the four cases of one iteration of `run_until` -/
+
+theorem runUntil_none {f : Nat} {s : Sim} {T : Int} (hp : popLive s.pending = none) :
+    runUntil (f+1) s T = some { s with now := T, pending := [], gone := s.gone ++ (skipped s.pending).map (·.id) } := by
+  simp only [runUntil, hp]
+
+theorem runUntil_late {f : Nat} {s : Sim} {T : Int} {e : Ev} {rest : List Ev} (hp : popLive s.pending = some (e, rest))
+    (hT : ¬ e.time ≤ T) :
+    runUntil (f+1) s T = some { popped s e rest with now := T, pending := insert e rest } := by
+  simp only [runUntil, hp, hT, if_false, popped]
+
+/-- the executed event raised: the run ends there -/
+theorem runUntil_due_raised {f : Nat} {s : Sim} {T : Int} {e : Ev} {rest : List Ev} (hp : popLive s.pending = some (e, rest))
+    (hT : e.time ≤ T) (hx : (exec (popped s e rest) e).raised.isSome = true) :
+    runUntil (f+1) s T = some (exec (popped s e rest) e) := by
+  simp only [popped] at hx
+  simp only [runUntil, hp, hT, if_true, popped, hx]
+
+theorem runUntil_due {f : Nat} {s : Sim} {T : Int} {e : Ev} {rest : List Ev} (hp : popLive s.pending = some (e, rest))
+    (hT : e.time ≤ T) (hx : (exec (popped s e rest) e).raised.isSome = false) :
+    runUntil (f+1) s T = runUntil f (exec (popped s e rest) e) T := by
+  simp only [popped] at hx
+  simp only [runUntil, hp, hT, if_true, popped, hx, Bool.false_eq_true, if_false]
 
 theorem rearm_wf {s : Sim} (h : WF s) : WF (rearm s) := by
   unfold rearm; split
@@ -328,7 +380,9 @@ theorem runUntil_wf {f : Nat} {s s' : Sim} {T : Int} (h : WF s) (hr : runUntil f
       have hpw := popped_wf h hp
       obtain ⟨_, hlt, hs⟩ := popLive_spec h.sorted hp
       split at hr
-      · exact ih (exec_wf hpw e) hr
+      · split at hr
+        · simp only [Option.some.injEq] at hr; subst hr; exact exec_wf hpw e
+        · exact ih (exec_wf hpw e) hr
       · rename_i hgt
         simp only [Option.some.injEq] at hr; subst hr
         refine ⟨?_, ?_, ?_⟩
@@ -380,7 +434,8 @@ theorem ids_map_flags (l : List Ev) (g : Ev → Ev) (hg : ∀ e, (g e).id = e.id
 theorem init_acc (k : Kind) (p : Nat → List Cmd) (sp : List Cmd) : Acc (init k p sp) := by
   intro i; simp [init, ids, logIds]
 
-theorem pushUser_accH {h : List Nat} {s : Sim} (ha : AccH h s) (t : Int) (p a : Nat) : AccH h (pushUser s t p a) := by
+theorem pushUser_accH {h : List Nat} {s : Sim} (ha : AccH h s) (t : Int) (p a : Nat) (c : Option Nat := none) :
+    AccH h (pushUser s t p a c) := by
   intro i
   have := ha i
   simp only [pushUser, ids_insert_count]
@@ -392,10 +447,10 @@ theorem pushStep_accH {h : List Nat} {s : Sim} (ha : AccH h s) : AccH h (pushSte
   simp only [pushStep, ids_insert_count]
   grind
 
-theorem doCmd_accH {h : List Nat} {s : Sim} (ha : AccH h s) (c : Cmd) : AccH h (doCmd s c) := by
+theorem doCmd1_accH {h : List Nat} {s : Sim} (ha : AccH h s) (c : Cmd) : AccH h (doCmd1 s c) := by
   cases c with
   | schedAbs t p a =>
-    simp only [doCmd, schedAbs]
+    simp only [doCmd1, schedAbs]
     split
     · rename_i s' hs
       split at hs
@@ -405,7 +460,7 @@ theorem doCmd_accH {h : List Nat} {s : Sim} (ha : AccH h s) (c : Cmd) : AccH h (
         · simp only [Except.ok.injEq] at hs; subst hs; exact pushUser_accH ha _ _ _
     · exact ha
   | schedRel d p a =>
-    simp only [doCmd, schedRel]
+    simp only [doCmd1, schedRel]
     split
     · rename_i s' hs
       split at hs
@@ -417,16 +472,26 @@ theorem doCmd_accH {h : List Nat} {s : Sim} (ha : AccH h s) (c : Cmd) : AccH h (
   | cancel k =>
     intro i
     have := ha i
-    simp only [doCmd, cancelTag]
+    simp only [doCmd1, cancelTag]
     rw [ids_map_flags _ _ (fun e => by split <;> rfl)]
     exact this
+  | again k d p =>
+    rcases doCmd1_again_cases s k d p with he | ⟨a, _, _, he⟩ <;> rw [he]
+    · exact ha
+    · exact pushUser_accH ha _ _ _ _
   | drop k =>
     intro i
     have := ha i
-    simp only [doCmd, dropTag]
+    simp only [doCmd1, dropFn]
     rw [ids_map_flags _ _ (fun e => by split <;> rfl)]
     exact this
   | halt => exact ha
+  | raise x => exact ha
+
+theorem doCmd_accH {h : List Nat} {s : Sim} (ha : AccH h s) (c : Cmd) : AccH h (doCmd s c) := by
+  unfold doCmd; split
+  · exact ha
+  · exact doCmd1_accH ha c
 
 theorem foldl_doCmd_accH {h : List Nat} {s : Sim} (ha : AccH h s) (cs : List Cmd) : AccH h (cs.foldl doCmd s) := by
   induction cs generalizing s with
@@ -489,7 +554,9 @@ theorem runUntil_acc {f : Nat} {s s' : Sim} {T : Int} (ha : Acc s) (hr : runUnti
       grind
     · rename_i e rest hp
       split at hr
-      · exact ih (exec_acc (popped_accH ha hp)) hr
+      · split at hr
+        · simp only [Option.some.injEq] at hr; subst hr; exact exec_acc (popped_accH ha hp)
+        · exact ih (exec_acc (popped_accH ha hp)) hr
       · simp only [Option.some.injEq] at hr; subst hr
         intro i
         have := popped_accH ha hp i
@@ -510,13 +577,13 @@ theorem runNext_acc {s : Sim} (ha : Acc s) : Acc (runNext s) := by
 
 /-! ### frame lemmas: commands never touch clock, log, counters, programs -/
 
-theorem doCmd_frame (s : Sim) (c : Cmd) :
-    (doCmd s c).now = s.now ∧ (doCmd s c).log = s.log ∧ (doCmd s c).steps = s.steps ∧
-    (doCmd s c).kind = s.kind ∧ (doCmd s c).prog = s.prog ∧ (doCmd s c).stepProg = s.stepProg ∧
-    (doCmd s c).gone = s.gone := by
+theorem doCmd1_frame (s : Sim) (c : Cmd) :
+    (doCmd1 s c).now = s.now ∧ (doCmd1 s c).log = s.log ∧ (doCmd1 s c).steps = s.steps ∧
+    (doCmd1 s c).kind = s.kind ∧ (doCmd1 s c).prog = s.prog ∧ (doCmd1 s c).stepProg = s.stepProg ∧
+    (doCmd1 s c).gone = s.gone := by
   cases c with
   | schedAbs t p a =>
-    simp only [doCmd, schedAbs]
+    simp only [doCmd1, schedAbs]
     split
     · rename_i s' hs
       split at hs
@@ -526,7 +593,7 @@ theorem doCmd_frame (s : Sim) (c : Cmd) :
         · simp only [Except.ok.injEq] at hs; subst hs; simp [pushUser]
     · simp
   | schedRel d p a =>
-    simp only [doCmd, schedRel]
+    simp only [doCmd1, schedRel]
     split
     · rename_i s' hs
       split at hs
@@ -535,9 +602,20 @@ theorem doCmd_frame (s : Sim) (c : Cmd) :
         · simp at hs
         · simp only [Except.ok.injEq] at hs; subst hs; simp [pushUser]
     · simp
-  | cancel k => simp [doCmd, cancelTag]
-  | drop k => simp [doCmd, dropTag]
-  | halt => simp [doCmd]
+  | again k d p =>
+    rcases doCmd1_again_cases s k d p with he | ⟨a, _, _, he⟩ <;> rw [he] <;> simp [pushUser]
+  | cancel k => simp [doCmd1, cancelTag]
+  | drop k => simp [doCmd1, dropFn]
+  | halt => simp [doCmd1]
+  | raise x => simp [doCmd1]
+
+theorem doCmd_frame (s : Sim) (c : Cmd) :
+    (doCmd s c).now = s.now ∧ (doCmd s c).log = s.log ∧ (doCmd s c).steps = s.steps ∧
+    (doCmd s c).kind = s.kind ∧ (doCmd s c).prog = s.prog ∧ (doCmd s c).stepProg = s.stepProg ∧
+    (doCmd s c).gone = s.gone := by
+  unfold doCmd; split
+  · simp
+  · exact doCmd1_frame s c
 
 theorem foldl_doCmd_frame (s : Sim) (cs : List Cmd) :
     (cs.foldl doCmd s).now = s.now ∧ (cs.foldl doCmd s).log = s.log ∧ (cs.foldl doCmd s).steps = s.steps ∧
@@ -641,8 +719,10 @@ theorem runUntil_clockInv {f : Nat} {s s' : Sim} {T : Int} (hw : WF s) (h : Cloc
       have hle := hw.future e (popLive_mem hp).1
       split at hr
       · rename_i heT
-        refine ih (exec_wf (popped_wf hw hp) e) (exec_clockInv (popped_clockInv h hle) e) ?_ hr
-        rw [exec_now]; exact heT
+        split at hr
+        · simp only [Option.some.injEq] at hr; subst hr; exact exec_clockInv (popped_clockInv h hle) e
+        · refine ih (exec_wf (popped_wf hw hp) e) (exec_clockInv (popped_clockInv h hle) e) ?_ hr
+          rw [exec_now]; exact heT
       · simp only [Option.some.injEq] at hr; subst hr
         exact ⟨h.mono, fun c hc => Int.le_trans (h.le_now c hc) hT⟩
 
@@ -655,7 +735,8 @@ theorem runNext_clockInv {s : Sim} (hw : WF s) (h : ClockInv s) : ClockInv (runN
 
 /-! ### post-condition of `run_until` -/
 
-theorem runUntil_post {f : Nat} {s s' : Sim} {T : Int} (hw : WF s) (hr : runUntil f s T = some s') :
+theorem runUntil_post {f : Nat} {s s' : Sim} {T : Int} (hw : WF s) (hr : runUntil f s T = some s')
+    (hn : s'.raised = none) :
     s'.now = T ∧ (∀ y ∈ s'.pending, y.cancelled = false → T < y.time) ∧
     ∃ new, s'.log = s.log ++ new ∧ ∀ x ∈ new, x.clock ≤ T := by
   induction f generalizing s with
@@ -669,6 +750,10 @@ theorem runUntil_post {f : Nat} {s s' : Sim} {T : Int} (hw : WF s) (hr : runUnti
       obtain ⟨_, hlt, _⟩ := popLive_spec hw.sorted hp
       split at hr
       · rename_i heT
+        split at hr
+        · rename_i hx
+          simp only [Option.some.injEq] at hr; subst hr
+          rw [hn] at hx; simp at hx
         obtain ⟨h1, h2, new, h3, h4⟩ := ih (exec_wf (popped_wf hw hp) e) hr
         refine ⟨h1, h2, entryOf (popped s e rest) e ++ new, ?_, ?_⟩
         · rw [h3, exec_log]; simp [popped]
@@ -697,14 +782,15 @@ theorem runUntil_fuel_succ {f : Nat} {s s' : Sim} {T : Int} (h : runUntil f s T 
   induction f generalizing s with
   | zero => simp [runUntil] at h
   | succ f ih =>
-    rw [runUntil] at h ⊢
-    split
-    · rename_i hp; simpa [hp] using h
-    · rename_i e rest hp
-      simp only [hp] at h
-      split
-      · rename_i hle; simp only [hle, if_true] at h; exact ih h
-      · rename_i hgt; simpa [hgt] using h
+    cases hp : popLive s.pending with
+    | none => rw [runUntil_none hp] at h ⊢; exact h
+    | some p =>
+      obtain ⟨e, rest⟩ := p
+      by_cases hT : e.time ≤ T
+      · cases hx : (exec (popped s e rest) e).raised.isSome with
+        | true => rw [runUntil_due_raised hp hT hx] at h ⊢; exact h
+        | false => rw [runUntil_due hp hT hx] at h ⊢; exact ih h
+      · rw [runUntil_late hp hT] at h ⊢; exact h
 
 theorem runUntil_fuel_le {f g : Nat} {s s' : Sim} {T : Int} (hfg : f ≤ g) (h : runUntil f s T = some s') :
     runUntil g s T = some s' := by
@@ -715,7 +801,7 @@ theorem runUntil_fuel_le {f g : Nat} {s s' : Sim} {T : Int} (hfg : f ≤ g) (h :
 /-- two consecutive `run_until` pieces can be replayed as one piece, with the same final state
     (clock, pending events, counters, complete execution log) -/
 theorem chunk_until {f₁ f₂ : Nat} {s s₁ s₂ : Sim} {t₁ t₂ : Int} (ht : t₁ ≤ t₂) (hw : WF s)
-    (h₁ : runUntil f₁ s t₁ = some s₁) (h₂ : runUntil f₂ s₁ t₂ = some s₂) :
+    (h₁ : runUntil f₁ s t₁ = some s₁) (hn : s₁.raised = none) (h₂ : runUntil f₂ s₁ t₂ = some s₂) :
     ∃ f, runUntil f s t₂ = some s₂ := by
   induction f₁ generalizing s with
   | zero => simp [runUntil] at h₁
@@ -734,8 +820,13 @@ theorem chunk_until {f₁ f₂ : Nat} {s s₁ s₂ : Sim} {t₁ t₂ : Int} (ht 
       obtain ⟨hlive, hlt, hsr⟩ := popLive_spec hw.sorted hp
       split at h₁
       · rename_i hle
-        obtain ⟨f', hf'⟩ := ih (exec_wf (popped_wf hw hp) e) h₁
-        exact ⟨f'+1, by simp only [runUntil, hp]; rw [if_pos (Int.le_trans hle ht)]; exact hf'⟩
+        split at h₁
+        · rename_i hx
+          simp only [Option.some.injEq] at h₁; subst h₁
+          rw [hn] at hx; simp at hx
+        · rename_i hx
+          obtain ⟨f', hf'⟩ := ih (exec_wf (popped_wf hw hp) e) h₁
+          exact ⟨f'+1, by rw [runUntil_due hp (Int.le_trans hle ht) (Bool.eq_false_iff.mpr hx)]; exact hf'⟩
       · rename_i hgt
         simp only [Option.some.injEq] at h₁; subst h₁
         cases f₂ with
@@ -755,9 +846,9 @@ theorem chunk_until {f₁ f₂ : Nat} {s s₁ s₂ : Sim} {t₁ t₂ : Int} (ht 
 /-- a `run_next_event` piece followed by `run_until T` equals `run_until T`, provided the event it
     executes is not beyond `T` -/
 theorem chunk_next {f : Nat} {s s₂ : Sim} {T : Int}
-    (hT : ∀ e rest, popLive s.pending = some (e, rest) → e.time ≤ T)
+    (hT : ∀ e rest, popLive s.pending = some (e, rest) → e.time ≤ T) (hn : (runNext s).raised = none)
     (h : runUntil f (runNext s) T = some s₂) : ∃ f', runUntil f' s T = some s₂ := by
-  unfold runNext at h
+  unfold runNext at h hn
   split at h
   · rename_i hp
     cases f with
@@ -767,7 +858,10 @@ theorem chunk_next {f : Nat} {s s₂ : Sim} {T : Int}
         Option.some.injEq] at h
       exact ⟨1, by simp only [runUntil, hp]; rw [← h]; rfl⟩
   · rename_i e rest hp
-    exact ⟨f+1, by simp only [runUntil, hp]; rw [if_pos (hT e rest hp)]; exact h⟩
+    simp only [hp] at hn
+    have hx : (exec (popped s e rest) e).raised.isSome = false := by
+      simp only [popped]; rw [hn]; rfl
+    exact ⟨f+1, by rw [runUntil_due hp (hT e rest hp) hx]; exact h⟩
 
 inductive Piece where
   | until (t : Int)
@@ -796,6 +890,11 @@ def piecesWithin (f : Nat) (T : Int) : Sim → List Piece → Prop
      | .next => ∀ e rest, popLive s.pending = some (e, rest) → e.time ≤ T) ∧
     ∀ s', runPiece f s p = some s' → piecesWithin f T s' ps
 
+/-- every piece returns normally (no exception reaches the program) -/
+def piecesNormal (f : Nat) : Sim → List Piece → Prop
+  | _, [] => True
+  | s, p :: ps => ∀ s', runPiece f s p = some s' → s'.raised = none ∧ piecesNormal f s' ps
+
 theorem runPiece_wf {f : Nat} {s s' : Sim} {p : Piece} (hw : WF s) (h : runPiece f s p = some s') : WF s' := by
   cases p with
   | «until» t => exact runUntil_wf hw h
@@ -803,7 +902,7 @@ theorem runPiece_wf {f : Nat} {s s' : Sim} {p : Piece} (hw : WF s) (h : runPiece
   | next => simp only [runPiece, Option.some.injEq] at h; subst h; exact runNext_wf hw
 
 theorem chunk_pieces {f f' : Nat} {s s₁ s₂ : Sim} {T : Int} {ps : List Piece} (hw : WF s)
-    (hin : piecesWithin f T s ps) (h₁ : runPieces f s ps = some s₁) (h₂ : runUntil f' s₁ T = some s₂) :
+    (hin : piecesWithin f T s ps) (hnorm : piecesNormal f s ps) (h₁ : runPieces f s ps = some s₁) (h₂ : runUntil f' s₁ T = some s₂) :
     ∃ g, runUntil g s T = some s₂ := by
   induction ps generalizing s with
   | nil => simp only [runPieces, Option.some.injEq] at h₁; subst h₁; exact ⟨f', h₂⟩
@@ -813,13 +912,14 @@ theorem chunk_pieces {f f' : Nat} {s s₁ s₂ : Sim} {T : Int} {ps : List Piece
     · simp at h₁
     · rename_i sm hsm
       obtain ⟨hp, hrest⟩ := hin
-      obtain ⟨g, hg⟩ := ih (runPiece_wf hw hsm) (hrest sm hsm) h₁
+      obtain ⟨hnm, hnrest⟩ := hnorm sm hsm
+      obtain ⟨g, hg⟩ := ih (runPiece_wf hw hsm) (hrest sm hsm) hnrest h₁
       cases p with
-      | «until» t => exact chunk_until hp hw hsm hg
-      | «for» d => exact chunk_until hp hw hsm hg
+      | «until» t => exact chunk_until hp hw hsm hnm hg
+      | «for» d => exact chunk_until hp hw hsm hnm hg
       | next =>
         simp only [runPiece, Option.some.injEq] at hsm; subst hsm
-        exact chunk_next hp hg
+        exact chunk_next hp hnm hg
 
 /-! ### reachable states -/
 
@@ -832,6 +932,7 @@ inductive Reachable : Sim → Prop where
   | setup {s : Sim} : Reachable s → Reachable (setup s)
   | until {s s' : Sim} {f : Nat} {T : Int} : Reachable s → s.now ≤ T → runUntil f s T = some s' → Reachable s'
   | next {s : Sim} : Reachable s → Reachable (runNext s)
+  | caught {s : Sim} : Reachable s → Reachable (caught s)   -- the program catches the exception of a callable
 
 theorem doCmd_clockInv {s : Sim} (h : ClockInv s) (c : Cmd) : ClockInv (doCmd s c) := by
   have hf := doCmd_frame s c
@@ -852,6 +953,7 @@ theorem reachable_inv {s : Sim} (h : Reachable s) : WF s ∧ Acc s ∧ ClockInv 
     exact ⟨by rw [setup, hf.2.1]; exact ih.2.2.mono, by rw [setup, hf.2.1, hf.1]; exact ih.2.2.le_now⟩
   | «until» _ hT hr ih => exact ⟨runUntil_wf ih.1 hr, runUntil_acc ih.2.1 hr, runUntil_clockInv ih.1 ih.2.2 hT hr⟩
   | next _ ih => exact ⟨runNext_wf ih.1, runNext_acc ih.2.1, runNext_clockInv ih.1 ih.2.2⟩
+  | caught _ ih => exact ⟨⟨ih.1.sorted, ih.1.idlt, ih.1.future⟩, ih.2.1, ⟨ih.2.2.mono, ih.2.2.le_now⟩⟩
 
 /-! ### once cancelled, never executed -/
 
@@ -866,7 +968,8 @@ theorem dead_of_pending_superset {i : Nat} {s s' : Sim} (h : Dead i s)
     exact Or.inl ⟨e', he', by rw [hi', hi], hc'⟩
   · exact Or.inr (hg i h)
 
-theorem pushUser_dead {i : Nat} {s : Sim} (h : Dead i s) (t : Int) (p a : Nat) : Dead i (pushUser s t p a) :=
+theorem pushUser_dead {i : Nat} {s : Sim} (h : Dead i s) (t : Int) (p a : Nat) (c : Option Nat := none) :
+    Dead i (pushUser s t p a c) :=
   dead_of_pending_superset h (fun e he hc => ⟨e, mem_insert.mpr (Or.inr he), rfl, hc⟩) (fun _ hj => hj)
 
 theorem pushStep_dead {i : Nat} {s : Sim} (h : Dead i s) : Dead i (pushStep s) :=
@@ -878,10 +981,10 @@ theorem mapFlags_dead {i : Nat} {s : Sim} (h : Dead i s) (g : Ev → Ev)
   dead_of_pending_superset h
     (fun e he hc => ⟨g e, List.mem_map.mpr ⟨e, he, rfl⟩, (hg e).1, (hg e).2 hc⟩) (fun _ hj => hj)
 
-theorem doCmd_dead {i : Nat} {s : Sim} (h : Dead i s) (c : Cmd) : Dead i (doCmd s c) := by
+theorem doCmd1_dead {i : Nat} {s : Sim} (h : Dead i s) (c : Cmd) : Dead i (doCmd1 s c) := by
   cases c with
   | schedAbs t p a =>
-    simp only [doCmd, schedAbs]
+    simp only [doCmd1, schedAbs]
     split
     · rename_i s' hs
       split at hs
@@ -891,7 +994,7 @@ theorem doCmd_dead {i : Nat} {s : Sim} (h : Dead i s) (c : Cmd) : Dead i (doCmd 
         · simp only [Except.ok.injEq] at hs; subst hs; exact pushUser_dead h _ _ _
     · exact h
   | schedRel d p a =>
-    simp only [doCmd, schedRel]
+    simp only [doCmd1, schedRel]
     split
     · rename_i s' hs
       split at hs
@@ -900,9 +1003,22 @@ theorem doCmd_dead {i : Nat} {s : Sim} (h : Dead i s) (c : Cmd) : Dead i (doCmd 
         · simp at hs
         · simp only [Except.ok.injEq] at hs; subst hs; exact pushUser_dead h _ _ _
     · exact h
+  | again k d p =>
+    rcases doCmd1_again_cases s k d p with he | ⟨a, _, _, he⟩ <;> rw [he]
+    · exact h
+    · exact pushUser_dead h _ _ _ _
   | cancel k => exact mapFlags_dead h _ (fun e => by split <;> simp)
-  | drop k => exact mapFlags_dead h _ (fun e => by split <;> simp)
+  | drop k =>
+    exact dead_of_pending_superset
+      (mapFlags_dead h (fun e => if !e.isStep && e.fn == k then { e with dead := true } else e) (fun e => by split <;> simp))
+      (fun e he hc => ⟨e, he, rfl, hc⟩) (fun _ hj => hj)
   | halt => exact h
+  | raise x => exact h
+
+theorem doCmd_dead {i : Nat} {s : Sim} (h : Dead i s) (c : Cmd) : Dead i (doCmd s c) := by
+  unfold doCmd; split
+  · exact h
+  · exact doCmd1_dead h c
 
 theorem foldl_doCmd_dead {i : Nat} {s : Sim} (h : Dead i s) (cs : List Cmd) : Dead i (cs.foldl doCmd s) := by
   induction cs generalizing s with
@@ -951,7 +1067,9 @@ theorem runUntil_dead {i : Nat} {f : Nat} {s s' : Sim} {T : Int} (h : Dead i s)
     · rename_i e₀ rest hp
       have hpd := popped_dead h hp
       split at hr
-      · exact ih (exec_dead hpd e₀) hr
+      · split at hr
+        · simp only [Option.some.injEq] at hr; subst hr; exact exec_dead hpd e₀
+        · exact ih (exec_dead hpd e₀) hr
       · simp only [Option.some.injEq] at hr; subst hr
         exact dead_of_pending_superset hpd
           (fun e he hc => ⟨e, mem_insert.mpr (Or.inr he), rfl, hc⟩) (fun _ hj => hj)
@@ -974,6 +1092,7 @@ inductive ReachableFrom (s : Sim) : Sim → Prop where
   | until {s' s'' : Sim} {f : Nat} {T : Int} : ReachableFrom s s' → s'.now ≤ T → runUntil f s' T = some s'' →
       ReachableFrom s s''
   | next {s' : Sim} : ReachableFrom s s' → ReachableFrom s (runNext s')
+  | caught {s' : Sim} : ReachableFrom s s' → ReachableFrom s (caught s')
 
 theorem reachableFrom_reachable {s s' : Sim} (h : Reachable s) (hr : ReachableFrom s s') : Reachable s' := by
   induction hr with
@@ -981,6 +1100,23 @@ theorem reachableFrom_reachable {s s' : Sim} (h : Reachable s) (hr : ReachableFr
   | cmd c _ ih => exact .cmd c ih
   | «until» _ hT hrun ih => exact .until ih hT hrun
   | next _ ih => exact .next ih
+  | caught _ ih => exact .caught ih
+
+theorem reachableFrom_wf {s s' : Sim} (h : WF s) (hr : ReachableFrom s s') : WF s' := by
+  induction hr with
+  | refl => exact h
+  | cmd c _ ih => exact doCmd_wf ih c
+  | «until» _ _ hrun ih => exact runUntil_wf ih hrun
+  | next _ ih => exact runNext_wf ih
+  | caught _ ih => exact ⟨ih.sorted, ih.idlt, ih.future⟩
+
+theorem reachableFrom_acc {s s' : Sim} (h : Acc s) (hr : ReachableFrom s s') : Acc s' := by
+  induction hr with
+  | refl => exact h
+  | cmd c _ ih => exact doCmd_accH ih c
+  | «until» _ _ hrun ih => exact runUntil_acc ih hrun
+  | next _ ih => exact runNext_acc ih
+  | caught _ ih => exact ih
 
 theorem dead_stays {i : Nat} {s s' : Sim} (h : Dead i s) (hr : ReachableFrom s s') : Dead i s' := by
   induction hr with
@@ -988,6 +1124,7 @@ theorem dead_stays {i : Nat} {s s' : Sim} (h : Dead i s) (hr : ReachableFrom s s
   | cmd c _ ih => exact doCmd_dead ih c
   | «until» _ _ hrun ih => exact runUntil_dead ih hrun
   | next _ ih => exact runNext_dead ih
+  | caught _ ih => exact ih
 
 theorem dead_not_logged {i : Nat} {s : Sim} (ha : Acc s) (h : Dead i s) : i ∉ logIds s.log := by
   intro hl
@@ -1009,6 +1146,7 @@ theorem dead_not_logged {i : Nat} {s : Sim} (ha : Acc s) (h : Dead i s) : i ∉ 
 structure Quiet (s : Sim) : Prop where
   progs : ∀ a, s.prog a = []
   nosteps : ∀ e ∈ s.pending, e.isStep = false
+  calm : s.raised = none
 
 /-- what executing the live event `e` logs at its own time -/
 def logged (e : Ev) : Option LogEntry := if e.dead then none else some (.user e.id e.tag e.time)
@@ -1052,13 +1190,18 @@ theorem runUntil_quiet_log {f : Nat} {s s' : Sim} {T : Int} (hq : Quiet s)
       split at hr
       · rename_i hle
         have hqp : Quiet (popped s e rest) :=
-          ⟨hq.progs, fun y hy => hq.nosteps y ((popLive_mem hp).2 y hy)⟩
+          ⟨hq.progs, fun y hy => hq.nosteps y ((popLive_mem hp).2 y hy), hq.calm⟩
         have hex := exec_quiet e hqp hes
         have hq' : Quiet (exec (popped s e rest) e) := by
           rw [hex]
           split
-          · exact ⟨hqp.progs, hqp.nosteps⟩
-          · exact ⟨hqp.progs, hqp.nosteps⟩
+          · exact ⟨hqp.progs, hqp.nosteps, hqp.calm⟩
+          · exact ⟨hqp.progs, hqp.nosteps, hqp.calm⟩
+        split at hr
+        · rename_i hx
+          have := hq'.calm
+          simp only [popped] at this
+          rw [this] at hx; simp at hx
         have h1 := ih hq' hr
         rw [h1, hex]
         simp only [due, hfl, List.takeWhile_cons, hle, decide_true, if_true, List.filterMap_cons, logged]
